@@ -2,6 +2,8 @@
 from .. import runner
 from ..monitors import mon_library_exceptions
 from .common import story_item_parts, ALPHABET
+from . import c09, c08
+from .. import coll, explore
 
 RULE = (ALPHABET + 'States include running orders whose stories carry no timing metadata and states reached by merges '
         'that inserted such stories. Monitor: for every schema-shaped case the exception leaving MosFile.from_string / '
@@ -18,10 +20,32 @@ def vacuity(by_kind, by_outcome, extra, by_class):
     return probs
 
 
+def doc_worker(ns, items, res, opts):
+    """Classification of every H-DOC document: None or a MosRoMgrException subclass."""
+    for label, text, trivial in items:
+        for wf in ('always',):
+            v = c08._classify(ns, 'str', text, None, wf)
+            res.transitions += 1
+            res.nontrivial += 0 if trivial else 1
+            res.by_outcome['classify:' + v.split(':')[0]] += 1
+            res.extra['documents_classified'] += 1
+            if v.startswith('BUILTIN:'):
+                explore.add_simple_finding(res, opts['prop'], f"CLASSIFY:{label.split(':')[0]}:{v.split(':')[1]}",
+                                           f'classifying document {label!r} raised {v[8:]}', document=text, label=label)
+
+
 def run(tier):
     parts = story_item_parts(tier, [mon_library_exceptions])
+    names = list(coll.pool_nasty())
+    seqs = list(c09.sequences(names, 2 if tier == 'quick' else 3))
+    docs = [d for d in c08.documents(tier) if not d[0].startswith(('prefix:', 'deletion:', 'not-xml:'))]
+    enum_parts = [{'label': 'collection-merges-self-referential-messages', 'worker': c09.worker, 'items': seqs,
+                   'opts': {'c12': True, 'nasty': True}, 'chunk': 20},
+                  {'label': 'classification-of-well-formed-documents', 'worker': doc_worker, 'items': docs, 'chunk': 100}]
     return runner.graph_check(
-        'C12', tier, parts, rule=RULE, vacuity=vacuity,
+        'C12', tier, parts, rule=RULE + ' Plus: every sequence (length <= 2, thorough 3) over a pool of self-referential / '
+        'blank / repeated-ID / unresolvable messages merged through MosCollection strict and non-strict (non-strict must run '
+        'to the end), and the classification of every well-formed H-DOC document.', vacuity=vacuity, enum_parts=enum_parts,
         assumptions=['schema-shaped = required tags present (IDs may be blank, unknown, repeated, self-referential); '
                      'roStoryInsert/roItemInsert/roItemReplace/roStoryReplace without their reference tag are not schema-shaped and are skipped',
                      'bounds as listed per part'])
